@@ -177,17 +177,17 @@ Section Asm.
       { unfold vs17. rewrite cat_app, cat_cons. cbn [cat flat_map]. rewrite app_nil_r. reflexivity. }
       assert (Ok17 : vs_ok vs17) by (unfold vs17, vs_ok; apply Forall_app; split; [exact Okv|constructor; [exact Ok16|constructor]]).
       assert (L17 : length vs17 = 17%nat) by (unfold vs17; rewrite app_length; simpl; lia).
-      rewrite Ecat in *. rewrite list_wrap_chunk in *.
+      rewrite Ecat in *.
       destruct (hex_to_compact_total [p]) as [ck Eck].
       assert (Hnp : nibbles [p]) by (constructor; [exact Hp|constructor]).
-      exists (list_wrap (enc_str ck ++ enc_str (H (chunk KList (cat vs17))))). split.
+      exists (list_wrap (enc_str ck ++ enc_str (H (list_wrap (cat vs17))))). split.
       + rewrite (node_enc_short_ext H [p] _ (nib_has_term_false _ Hnp) (or_intror (ex_intro _ _ eq_refl))), Eck.
         cbn [slot_enc]. rewrite (ProofProofs.node_enc_full H), (enc_go_split H l 0 c16) by lia.
-        rewrite Ev, Ev16, Ecat, list_wrap_chunk.
-        unfold ref_of_enc, write_ref.
-        replace (Nat.ltb (length (chunk KList (cat vs17))) 32) with false by (symmetry; apply Nat.ltb_ge; exact Hbig).
-        rewrite H_len. reflexivity.
-      + unfold mount_partition_root. rewrite decode_elements_cat; [|exact Ok17|].
+        rewrite Ev, Ev16, Ecat. unfold ref_of_enc, write_ref.
+        replace (Nat.ltb (length (list_wrap (cat vs17))) 32) with false by (symmetry; apply Nat.ltb_ge; exact Hbig).
+        cbv beta iota. rewrite H_len. reflexivity.
+      + unfold mount_partition_root. rewrite (list_wrap_chunk (cat vs17)).
+        rewrite decode_elements_cat; [|exact Ok17|].
         2:{ rewrite <- Ecat, lenN_app. destruct Ok16 as [Hl16 _]. pose proof (hdr_le9 k16 b16 Hl16) as L2.
             pose proof (chunk_len k16 b16) as L3. unfold lenN in *.
             assert (33 * 16 + (9 + 2 ^ 33) < 2 ^ 64) by reflexivity. lia. }
